@@ -100,6 +100,27 @@ func (c *Checker) checkWriterWrite() {
 		}
 		c.check("C18.write", anchor, con+"each delivery carries exactly its 188 input bytes, in order, only after every earlier delivery succeeded", okAll, detail)
 		c.check("C18.write", anchor, con+"input slice not modified", noWritesTo(s, src), fmt.Sprint(s.WrittenCells()))
+		// a failed delivery: its error is what Write returns
+		if okAll && npk > 0 {
+			bad := ""
+			for k, e := range inv {
+				tup, isTup := e.Val.(*StructV)
+				if !isTup || len(tup.Fields) != 2 {
+					bad = fmt.Sprintf("delivery %d has result %s", k, showVal(e.Val))
+					break
+				}
+				fs := newFactSet(nil)
+				for j := 0; j < k; j++ {
+					fs.assume(callErrNil(in0, s, j))
+				}
+				fs.assume(bnot(callErrNil(in0, s, k)))
+				if got := fs.val(s.RetN(1)); !sameVal(got, tup.Fields[1]) {
+					bad = fmt.Sprintf("delivery %d fails: Write returns the error %s, expected the packet writer's error %s", k, showVal(got), showVal(tup.Fields[1]))
+					break
+				}
+			}
+			c.check("C18.write", anchor, con+"when a delivery fails (all earlier ones having succeeded) Write returns that delivery's error", bad == "", bad)
+		}
 		if npk > 0 {
 			// result count when everything succeeded = Σ counts
 			nret, _ := s.RetN(0).(*BV)
